@@ -195,6 +195,9 @@ struct V {
     last_narrows: std::cell::Cell<bool>,
     /// nesting depth of tuple fields (a field's chain never short-circuits anything)
     in_field: std::cell::Cell<u32>,
+    /// inside the condition of a branch that has a consequence (open finding: the `=>` forward
+    /// narrowing trusts the provenance of a mid-chain match)
+    in_cond: std::cell::Cell<bool>,
 }
 
 impl V {
@@ -435,6 +438,9 @@ impl V {
             }
             // open finding "mid-chain match narrows the rest of the chain": a refutable match whose
             // scrutinee may carry provenance (variable, parameter, `~`) ends its chain
+            if self.in_cond.get() && i > 0 && matches!(terms[i - 1], Term::Match(_)) && last_match_narrows {
+                return Err("in a condition with consequence a refutable match on a variable / parameter is followed by more terms (open finding: `=>` forward narrowing)".into());
+            }
             let is_last = i + 1 == terms.len();
             self.flow.set((after_match, prov));
             let before = cur.clone();
@@ -510,14 +516,18 @@ impl V {
                 let mut inner = Env { vars: env.vars.clone(), depth: env.depth + 1 };
                 inner.kill_pending();
                 let depth = self.in_field.replace(0);
+                let ic = self.in_cond.replace(false);
                 let r = self.branches(&inner, tin, e, tail, cx);
                 self.in_field.set(depth);
+                self.in_cond.set(ic);
                 r
             }
             Term::Fn { param, body } => {
                 let depth = self.in_field.replace(0);
+                let ic = self.in_cond.replace(false);
                 let r = self.function(env, param, body);
                 self.in_field.set(depth);
+                self.in_cond.set(ic);
                 let (ty, rec) = r?;
                 if rec {
                     return Err("count-down function not bound to a name".into());
@@ -632,6 +642,9 @@ impl V {
                 if ty.is_never() {
                     return Err("binding a tail call".into());
                 }
+                if self.in_cond.get() && self.last_narrows.get() {
+                    return Err("in a condition with consequence a refutable match on a variable / parameter is followed by the binding pattern (open finding: `=>` forward narrowing)".into());
+                }
                 env.kill_pending();
                 let (vty, refutable) = self.check_pat(env, p, &ty, true, fs_out.1 && !fs_out.0)?;
                 Ok((vty, if refutable { env.pending() } else { vec![] }, (true, fs_out.1)))
@@ -695,7 +708,10 @@ impl V {
             let c = if i == 0 { cx_first } else { cx };
             let mut benv = Env { vars: env.vars.clone(), depth: env.depth + 1 };
             benv.kill_pending();
-            let (cty, pending) = self.seq(&mut benv, tin, &b.cond, tail && b.cons.is_none() && is_last, c)?;
+            let ic = self.in_cond.replace(b.cons.is_some());
+            let r = self.seq(&mut benv, tin, &b.cond, tail && b.cons.is_none() && is_last, c);
+            self.in_cond.set(ic);
+            let (cty, pending) = r?;
             if cty.is_nil() {
                 if b.cons.is_some() {
                     return Err("consequence of a statically dead condition".into());
@@ -843,7 +859,7 @@ pub fn validate(p: &Program) -> R<()> {
     if p.prints_ambiguously() {
         return Err("prints ambiguously".into());
     }
-    let v = V { flow: std::cell::Cell::new((false, true)), last_narrows: std::cell::Cell::new(false), in_field: std::cell::Cell::new(0) };
+    let v = V { flow: std::cell::Cell::new((false, true)), last_narrows: std::cell::Cell::new(false), in_field: std::cell::Cell::new(0), in_cond: std::cell::Cell::new(false) };
     let cx = Cx { param: None, rec: false };
     let mut env = Env::default();
     let n = p.steps.len();
